@@ -18,6 +18,7 @@ import (
 	dagpb "github.com/ipld/go-codec-dagpb"
 	"github.com/ipld/go-ipld-prime"
 	"github.com/ipld/go-ipld-prime/datamodel"
+	"github.com/ipld/go-ipld-prime/fluent/qp"
 	cidlink "github.com/ipld/go-ipld-prime/linking/cid"
 	"github.com/ipld/go-ipld-prime/node/basicnode"
 )
@@ -284,6 +285,19 @@ func runFileInput(rep *Report, in FileInput, cfB, cfR *CaseFile) {
 		readers[i] = r
 		return r, nil
 	}
+	// in every other input the readers are all obtained before the first operation (two readers of one node taken
+	// back to back must still be independent), otherwise each at its first use
+	if len(in.Ops)%2 == 0 {
+		maxR := -1
+		for _, op := range in.Ops {
+			if op.Reader > maxR {
+				maxR = op.Reader
+			}
+		}
+		for i := 0; i <= maxR; i++ {
+			_ = guard(func() error { _, err := getReader(i); return err })
+		}
+	}
 	// abstract ReadSeeker per reader (C04 oracle)
 	var pos [4]int64
 	n := int64(len(fc.content))
@@ -438,12 +452,156 @@ func runFileInput(rep *Report, in FileInput, cfB, cfR *CaseFile) {
 			}
 		}
 	}
+	if in.Mode == "faults" && firstBad >= 0 {
+		// the whole value: AsBytes needs every block, so it must report an error, never a (shortened) value -
+		// also when the storage's own error is io.ErrUnexpectedEOF, which a buffer-filling read may mistake for "done"
+		for _, sentinel := range []bool{false, true} {
+			if sentinel {
+				fc.st.ReadHook = func(c cid.Cid) error {
+					if _, bad := fc.st.Unavailable[c.KeyString()]; bad {
+						return io.ErrUnexpectedEOF
+					}
+					return nil
+				}
+			}
+			var n2 datamodel.Node
+			oo := guard(func() error {
+				var err error
+				n2, err = openFile(fc.st, fc.root, in.Opener)
+				return err
+			})
+			if oo.Class == "ok" {
+				var b []byte
+				ob := guard(func() error {
+					var err error
+					b, err = n2.AsBytes()
+					return err
+				})
+				if ob.Class == "panic" {
+					fail("C12", "asbytes-panic", "AsBytes panicked on an unavailable block", "error", "panic")
+				} else if ob.Class == "ok" {
+					fail("C12", "asbytes-truncated", "AsBytes returned a value although a block of the file is unavailable", "load error", fmt.Sprintf("%d of %d bytes, nil error (storage error io.ErrUnexpectedEOF: %v)", len(b), len(fc.content), sentinel))
+				}
+			}
+			fc.st.ReadHook = nil
+		}
+	}
 	if cfR != nil {
 		fl := make([]string, len(in.Faults))
 		for i, f := range in.Faults {
 			fl[i] = fmt.Sprintf("(%d, %d)", f[0], f[1])
 		}
 		cfR.Add(fmt.Sprintf("mk_fread %s %s %s %s", fc.srcTerm, coqList(fl), coqList(opTerms), coqList(obsTerms)), in)
+	}
+}
+
+// hand-built file roots that the reader supports although no builder writes them: links but no BlockSizes (child sizes
+// are found by opening the children), with raw or dag-pb leaves, with and without a FileSize.  Preloading such a file must
+// still fetch every child, or fail when one is unavailable (C06); reading it returns the concatenation (C01).
+func runNoSizesFiles(rep *Report) {
+	for _, pbLeaves := range []bool{false, true} {
+		for _, withFileSize := range []bool{false, true} {
+			in := map[string]interface{}{"mode": "no-blocksizes-file", "pb_leaves": pbLeaves, "filesize": withFileSize}
+			fail := func(prop, sig, what string, exp, got interface{}) { rep.Fail(prop, "files/"+sig, what, in, exp, got) }
+			st := NewStore()
+			chunks := [][]byte{[]byte("first-chunk-"), []byte("second"), []byte("third-and-last-chunk")}
+			var kids []cid.Cid
+			var content []byte
+			for _, c := range chunks {
+				content = append(content, c...)
+				if pbLeaves {
+					fs := uint64(len(c))
+					n, err := qp.BuildMap(dagpb.Type.PBNode, -1, func(ma datamodel.MapAssembler) {
+						qp.MapEntry(ma, "Links", qp.List(0, func(la datamodel.ListAssembler) {}))
+						qp.MapEntry(ma, "Data", qp.Bytes(ufsData(2, c, true, &fs, nil, nil, nil)))
+					})
+					must(err)
+					k, err := st.PutPB(n, false)
+					must(err)
+					kids = append(kids, k)
+				} else {
+					kids = append(kids, st.PutRaw(c))
+				}
+			}
+			var fsz *uint64
+			if withFileSize {
+				v := uint64(len(content))
+				fsz = &v
+			}
+			rootN, err := qp.BuildMap(dagpb.Type.PBNode, -1, func(ma datamodel.MapAssembler) {
+				qp.MapEntry(ma, "Links", qp.List(int64(len(kids)), func(la datamodel.ListAssembler) {
+					for i, k := range kids {
+						k := k
+						sz := int64(len(st.Blocks[k.KeyString()]))
+						_ = i
+						qp.ListEntry(la, qp.Map(-1, func(ma datamodel.MapAssembler) {
+							qp.MapEntry(ma, "Hash", qp.Link(cidlink.Link{Cid: k}))
+							qp.MapEntry(ma, "Name", qp.String(""))
+							qp.MapEntry(ma, "Tsize", qp.Int(sz))
+						}))
+					}
+				}))
+				qp.MapEntry(ma, "Data", qp.Bytes(ufsData(2, nil, false, fsz, nil, nil, nil)))
+			})
+			must(err)
+			root, err := st.PutPB(rootN, false)
+			must(err)
+			// every block present: preload fetches every child; both views read the content back
+			for _, opener := range []string{"lazy", "preload"} {
+				var nd datamodel.Node
+				o := guard(func() error {
+					var err error
+					nd, err = openFile(st, root, opener)
+					return err
+				})
+				if o.Class != "ok" {
+					fail("C01", "nosizes-open", "opening a file root without BlockSizes failed", "ok", opener+": "+o.Class)
+					continue
+				}
+				if opener == "preload" {
+					seen := map[string]bool{}
+					for _, c := range st.Reads {
+						seen[c.KeyString()] = true
+					}
+					for i, k := range kids {
+						if !seen[k.KeyString()] {
+							fail("C06", "nosizes-preload-incomplete", "preload reification of a file did not fetch every block of the file", fmt.Sprintf("child %d requested", i), "not requested")
+							break
+						}
+					}
+				}
+				var got []byte
+				ob := guard(func() error {
+					var err error
+					got, err = nd.AsBytes()
+					return err
+				})
+				if ob.Class == "panic" {
+					fail("C13", "nosizes-panic", "reading a file root without BlockSizes panicked", "bytes or error", "panic")
+				} else if ob.Class == "ok" && !bytes.Equal(got, content) {
+					fail("C01", "nosizes-content", "a file root without BlockSizes does not read back to the concatenation of its leaves", len(content), len(got))
+				}
+			}
+			// every single child unavailable: preload must fail
+			for i, k := range kids {
+				st.Unavailable = map[string]uint64{k.KeyString(): 1}
+				o := guard(func() error {
+					_, err := openFile(st, root, "preload")
+					return err
+				})
+				if o.Class == "panic" {
+					fail("C13", "nosizes-preload-panic", "preload of a file with an unavailable block panicked", "error", "panic")
+				} else if o.Class == "ok" {
+					fail("C06", "nosizes-preload-partial", "preload reification returned a node although a block of the file is unavailable", "error", fmt.Sprintf("ok (child %d missing)", i))
+				}
+			}
+			st.Unavailable = map[string]uint64{}
+			key, _ := json.Marshal(in)
+			for _, p := range []string{"C06", "C01"} {
+				rep.Count(p, string(key), true, in)
+				rep.Dist(p, "no-blocksizes-file")
+			}
+		}
 	}
 }
 
@@ -672,6 +830,7 @@ func scnFiles(rep *Report, rng *Rng, tier string, outdir string) {
 		addBuild(FileInput{Width: 2 + rng.Intn(3), Chunker: ch, Size: sz, Seed: uint64(rng.Intn(256))})
 	}
 	cfBFlush(cfB)
+	runNoSizesFiles(rep)
 
 	// ---- read histories, ranges, orders, faults ----
 	readProps := map[string]string{
@@ -704,6 +863,13 @@ func scnFiles(rep *Report, rng *Rng, tier string, outdir string) {
 	for _, s := range [][3]int{{2, 1, 7}, {2, 2, 13}, {3, 1, 10}, {3, 2, 41}, {2, 3, 30}, {4, 1, 18}, {2, 1, 1}, {2, 1, 0}, {3, 4, 100}, {5, 2, 61}} {
 		specs = append(specs, fspec{w: s[0], k: s[1], size: s[2], seed: uint64(rng.Intn(200))})
 	}
+	// larger chunks with a short tail (children of very different sizes under one parent)
+	for _, s := range [][3]int{{3, 100, 340}, {2, 70, 370}, {4, 128, 385}, {2, 300, 664}, {5, 65, 65*4 + 64}} {
+		specs = append(specs, fspec{w: s[0], k: s[1], size: s[2], seed: uint64(rng.Intn(200))})
+	}
+	// single-block files (one raw leaf; one dag-pb node with inline data): their readers come from a different type
+	specs = append(specs, fspec{w: 2, k: 40, size: 33, seed: uint64(rng.Intn(200))}, fspec{w: 3, k: 16, size: 16, seed: uint64(rng.Intn(200))})
+	specs = append(specs, fspec{w: 3, k: 64, size: 20 + rng.Intn(8), seed: uint64(rng.Intn(200)), ref: &refOpts{Width: 3, Chunker: "size-64", RawLeaves: false}})
 	// constant content: sibling links to the same block
 	specs = append(specs, fspec{w: 3, k: 2, size: 20, seed: 1000 + uint64(rng.Intn(200))}, fspec{w: 2, k: 1, size: 9, seed: 1000 + uint64(rng.Intn(200))})
 	for _, tr := range []bool{false, true} {
@@ -749,6 +915,9 @@ func scnFiles(rep *Report, rng *Rng, tier string, outdir string) {
 			in.Opener = openers[(h+si)%3]
 			nops := 1 + rng.Intn(40)
 			nreaders := 1 + rng.Intn(3)
+			if s.size <= s.k && h%2 == 0 {
+				nreaders = 2 + rng.Intn(2) // several readers of a single-block file
+			}
 			for i := 0; i < nops; i++ {
 				op := FOp{Reader: rng.Intn(nreaders)}
 				if rng.Intn(5) < 2 {
